@@ -3,7 +3,28 @@
    into the model always suffice); determinism is by construction (the model is a function).
    That rustc accepts the generated code is decided by running rustc (correspondence check). *)
 From LexVerif Require Import Base CharClass RangeMap RangeMapProofs Regex Parser ParserProofs Nfa Dfa NfaToDfa
-     NfaSem SubsetProofs BacktrackProofs.
+     NfaSem ThompsonProofs SubsetProofs BacktrackProofs NfaToDfaProofs SubsetTermination.
+
+(* The subset construction (nfa_to_dfa.rs, a `while let Some(..) = work_list.pop()` loop with no bound in
+   the Rust) terminates for every NFA: some number of iterations of the loop body reaches the final
+   configuration, which is never a panic; the automaton has at most 2^|NFA| states; the constant fuel of the
+   executable model is an artefact (it is the reason for a failure only if more than 2^32 iterations are needed,
+   and whenever k <= 2^32 iterations suffice the model returns exactly the loop's result). *)
+Theorem c12_subset_construction_terminates : forall n init,
+  nfa_inv n -> nfa_trans_wf n -> closure n [0] = Ok init ->
+  exists k d m, iter_nat k (n2d_step n) (mkN2D dfa_new [(init, 0)] [init] []) = inr (Ok (d, m)).
+Proof. exact subset_construction_terminates. Qed.
+
+Theorem c12_subset_construction_size : forall n d m,
+  nfa_inv n -> nfa_trans_wf n -> nfa_to_dfa_map n = Ok (d, m) -> length d <= 2 ^ length n.
+Proof. exact subset_construction_size. Qed.
+
+Theorem c12_out_of_fuel_only_when_huge : forall n init,
+  nfa_inv n -> nfa_trans_wf n -> closure n [0] = Ok init ->
+  nfa_to_dfa_map n = Panic TagOutOfFuel ->
+  exists k, Pos.to_nat n2d_fuel < k /\
+    exists d m, iter_nat k (n2d_step n) (mkN2D dfa_new [(init, 0)] [init] []) = inr (Ok (d, m)).
+Proof. exact out_of_fuel_only_when_huge. Qed.
 
 Theorem c12_backtrack_terminates : forall d,
   targets_ok d -> update_backtracks d <> Panic TagOutOfFuel.
@@ -26,6 +47,9 @@ Theorem c12_parser_fuel : forall fuel fuel' level ts res,
   fuel <= fuel' -> parse_re fuel level ts = Some res -> parse_re fuel' level ts = Some res.
 Proof. exact parse_re_fuel_mono. Qed.
 
+Print Assumptions c12_subset_construction_terminates.
+Print Assumptions c12_subset_construction_size.
+Print Assumptions c12_out_of_fuel_only_when_huge.
 Print Assumptions c12_backtrack_terminates.
 Print Assumptions c12_closure_terminates.
 Print Assumptions c12_insert_ranges_terminates.
